@@ -415,6 +415,7 @@ fn run_sched(sc: &Scen, world: &scen::World, out: &mut impl Write) {
 	let mut noted: Vec<bool> = vec![false; n];
 	let mut status = "done";
 	let mut sidx = 0usize;
+	let mut prio: Vec<usize> = vec![];
 	loop {
 		let mut c = ctl();
 		// wait until nobody has the baton and every live thread has announced its next step
@@ -456,6 +457,29 @@ fn run_sched(sc: &Scen, world: &scen::World, out: &mut impl Write) {
 			c.kill_all = true;
 			CV.notify_all();
 			break;
+		}
+		// priority scheduling (PCT): the enabled thread of highest priority runs; at the listed steps the thread that
+		// would run is demoted to the lowest priority first.  The effective schedule is reported and replayed by the model.
+		if let Some((_, changes)) = &sc.pct {
+			if prio.is_empty() {
+				prio = sc.pct.as_ref().unwrap().0.clone();
+				for t in 0..n {
+					if !prio.contains(&t) {
+						prio.push(t);
+					}
+				}
+			}
+			let mut t = *prio.iter().find(|t| enabled.contains(t)).unwrap();
+			if changes.contains(&used.len()) {
+				prio.retain(|x| *x != t);
+				prio.push(t);
+				t = *prio.iter().find(|t| enabled.contains(t)).unwrap();
+			}
+			used.push(t);
+			noted[t] = false;
+			c.turn = Some(t);
+			CV.notify_all();
+			continue;
 		}
 		// next schedule entry that names an enabled thread; when the schedule is exhausted, lowest id first
 		let mut pick = None;
